@@ -559,7 +559,14 @@ class C05Checker(Checker):
                 if not (0 <= dn <= v):
                     self.fail("n_added_out_of_range", f"add({key.hex()},{v}) cut short: n_added grew by {dn}")
         else:
-            if dn != v:
+            at_ceiling = "cells" in ctx and min(int(sk.cms[r, c]) for r, c in enumerate(ctx["cells"])) >= int(sk.uint_maxval)
+            if at_ceiling or "cells" not in ctx:
+                # the add may have been cut short by the counter ceiling: the statement then
+                # only bounds the growth
+                if not (0 <= dn <= v):
+                    self.fail("n_added_out_of_range", f"add({key.hex()},{v}): n_added grew by {dn}")
+                w.probes["add_cut_short_by_ceiling"] += 1 if at_ceiling else 0
+            elif dn != v:
                 self.fail("n_added_not_grown_by_v", f"add({key.hex()},{v}): n_added grew by {dn}")
             if "c" in ctx:
                 c0 = ctx["c"]
@@ -1483,8 +1490,10 @@ class C06Checker(Checker):
         sk = info["sk"]
         ref = self.get_ref(sk)
         total_v = sum(v for _, v in info["exp"])
-        if int(sk.n_added()) - ctx["nadd"] != total_v:
-            self.fail("n_added_not_grown_by_v", f"{ev['op']}: n_added grew by {int(sk.n_added()) - ctx['nadd']}, expected {total_v}")
+        dn = int(sk.n_added()) - ctx["nadd"]
+        capped = bool((sk.cms == sk.uint_maxval).any())
+        if (dn != total_v and not capped) or not (0 <= dn <= total_v):
+            self.fail("n_added_not_grown_by_v", f"{ev['op']}: n_added grew by {dn}, expected {total_v}")
         m = self.mirror(w, ev, ctx, info, ref)
         if m is None:
             return
@@ -1527,7 +1536,7 @@ class C06Checker(Checker):
     def law(self, w, ev, info):
         c, c2, u, p = info["c"], info["c2"], info["u"], info["p"]
         nr, mx = info["nr"], info["maxval"]
-        if info["dn"] != 1:
+        if info["dn"] != 1 and not (c >= mx and info["dn"] == 0):
             self.fail("n_added_not_grown_by_v", f"law probe: n_added grew by {info['dn']}")
         if c >= mx:
             if c2 != c or info["ptr2"] != info["ptr"]:
